@@ -127,11 +127,83 @@ def _r062(ck, prog, cfg):
                 what = callee(cmd.term).rsplit("::", 1)[-1]
             elif cmd.kind == "agg":
                 what = cmd.rv["n"].rsplit("::", 1)[-1]
+            fallible, why = _can_fail(prog, f, cmd)
+            if not fallible:
+                ck.ok("R06.2", "%s:execute(%s)#%d%s" % (short, what, _ordx(f, b), _tag(cfg)), "cannot fail: " + why)
+                continue
             ck.check(lib2.dest_used(f, b), "R06.2", "%s:execute(%s)#%d%s" % (short, what, _ordx(f, b), _tag(cfg)),
                      "the reply of the command that pushes merged replication state into the executor is thrown away: when it fails "
                      "(type change on the key -> WRONGTYPE; SETEX with 0 seconds) the node keeps serving what its replication state does "
                      "not say", f.where(t["ln"]), detail="result inspected")
     ck.floor("R06.2" + _tag(cfg), n, 7)
+
+
+def _ctor_shape(prog, f, cmd):
+    """(variant name, {field name: 'false'|'None'}) for the Command value passed to execute, or (None, {})"""
+    adt = prog.adts["redis::command::Command"]
+    def from_agg(g, rv):
+        vn = rv["n"].rsplit("::", 1)[-1]
+        var = [v for v in adt["variants"] if v["n"] == vn]
+        consts = {}
+        if var:
+            for fl, o in zip(var[0]["fields"], rv.get("ops", [])):
+                if "c" in o:
+                    if o["c"].strip() in ("const false", "false"):
+                        consts[fl["n"]] = "false"
+                else:
+                    s2 = src_of_operand(g, o)
+                    if s2.kind == "agg" and s2.rv["n"].endswith("Option::None"):
+                        consts[fl["n"]] = "None"
+        return vn, consts
+    if cmd.kind == "agg" and cmd.rv["n"].startswith("redis::command::Command::"):
+        return from_agg(f, cmd.rv)
+    if cmd.kind == "call":
+        g = prog.local_callee(f, cmd.term)
+        if g is not None:
+            for b, i, st in g.stmts():
+                if st["lhs"] == {"l": 0} and st["rv"]["k"] == "agg" and st["rv"]["n"].startswith("redis::command::Command::"):
+                    return from_agg(g, st["rv"])
+    return None, {}
+
+
+def _can_fail(prog, f, cmd):
+    """Can CommandExecutor::execute return an error reply for this constructed command?  Decided from the handler's error
+    sites: infallible only if every error site is guarded by the true/Some edge of a parameter that the constructor fixes
+    to false/None.  Unknown shapes count as fallible (reported)."""
+    from . import effects
+    vn, consts = _ctor_shape(prog, f, cmd)
+    if vn is None:
+        return True, "command value of unknown construction"
+    ex = prog.one("redis::executor::CommandExecutor::execute")
+    sw, table = effects.dispatch_table(prog, ex)
+    hs = [prog.local_callee(ex, t) for t in table.get(vn, [])]
+    hs = [h for h in hs if h is not None and h.short.startswith("execute_")]
+    if not hs:
+        return True, "handler of Command::%s not found" % vn
+    total = 0
+    for h in hs:
+        for g in [h] + prog.children(h):
+            for b, ln, txt in effects.error_sites(g):
+                total += 1
+                okg = False
+                for gd in lib2.guards(g, b):
+                    src = gd["src"]
+                    if src is None or src.kind != "path" or g is not h:
+                        continue
+                    c = consts.get(src.root)
+                    si = gd["si"]
+                    if c == "false" and lib2.guard_is_true(gd):
+                        okg = True
+                    if c == "None" and si and si["kind"] == "discr" and gd["value"] == "1":
+                        okg = True
+                if not okg:
+                    return True, "%s can answer %s" % (h.short, txt or "an error")
+            # a handler that delegates to another fallible executor method
+            for b, t in g.calls():
+                c2 = prog.local_callee(g, t)
+                if c2 is not None and c2.short.startswith("execute_") and c2 is not h and effects.error_sites(c2):
+                    return True, "%s delegates to %s" % (h.short, c2.short)
+    return False, "Command::%s built with %s: none of the %d error sites of %s is reachable" % (vn, consts or "no fixed options", total, [h.short for h in hs])
 
 
 def _ordx(f, b):
